@@ -125,6 +125,52 @@ func expandCall(s *Symer, call *ssa.Call, result int, depth int) string {
 	return "phi(" + strings.Join(alts, " | ") + ")"
 }
 
+// recvClosure: fn and the methods it (transitively) calls on its own receiver,
+// excluding functions that are themselves rule anchors elsewhere is up to the
+// caller. Order: fn first, then discovery order.
+func recvClosure(fn *ssa.Function) []*ssa.Function {
+	if fn == nil || fn.Signature.Recv() == nil {
+		return []*ssa.Function{fn}
+	}
+	s := NewSymer()
+	out := []*ssa.Function{fn}
+	seen := map[*ssa.Function]bool{fn: true}
+	for i := 0; i < len(out); i++ {
+		for _, b := range out[i].Blocks {
+			for _, in := range b.Instrs {
+				call, ok := in.(ssa.CallInstruction)
+				if !ok {
+					continue
+				}
+				h := call.Common().StaticCallee()
+				if h == nil || h.Blocks == nil || seen[h] || h.Signature.Recv() == nil || len(call.Common().Args) == 0 {
+					continue
+				}
+				if s.Sym(call.Common().Args[0]) == "recv" && h.Signature.Recv().Type().String() == fn.Signature.Recv().Type().String() {
+					seen[h] = true
+					out = append(out, h)
+				}
+			}
+		}
+	}
+	return out
+}
+
+// countCalls counts the static call sites of callee in fns.
+func countCalls(fns []*ssa.Function, callee string) int {
+	n := 0
+	for _, f := range fns {
+		for _, b := range f.Blocks {
+			for _, in := range b.Instrs {
+				if call, ok := in.(ssa.CallInstruction); ok && calleeName(call.Common()) == callee {
+					n++
+				}
+			}
+		}
+	}
+	return n
+}
+
 func linearString(v ssa.Value, s *Symer) string {
 	k, p, n := signedLinear(v, s)
 	out := strings.Join(p, " + ")
